@@ -464,6 +464,110 @@ func c08(c *core.Ctx) {
 		c.EndRule()
 	}
 
+	// ---------------------------------------------------------------- R10
+	if c.Rule("R10", "the client's second-response probe can see every response: the in-process handler's SendMsg turns a message away (returns without the frame write) only because of the context, of the message itself, of a callee's error, or of the stream's lifecycle state (a field that other methods of the stream write too) — not because of a count it keeps of its own sends or of the kind of method: a surplus message that never leaves the server is invisible to the probe, and a handler that ignores the send's error then succeeds with the first message", 1) {
+		n := 0
+		for _, nt := range streamTypes(p, "ServerStream", "SendMsg") {
+			if pkgSuffixOf(nt) != "inprocgrpc" {
+				continue
+			}
+			fn := declaredMethod(p, nt, "SendMsg")
+			if fn == nil {
+				continue
+			}
+			tn := nt.Obj().Name()
+			fam := map[*ssa.Function]bool{}
+			for _, f := range methodFamily(p, nt, "SendMsg") {
+				fam[f] = true
+			}
+			isWrite := func(in ssa.Instruction) bool {
+				call, ok := in.(*ssa.Call)
+				if !ok {
+					return false
+				}
+				h := call.Call.StaticCallee()
+				if h == nil || !isInprocFrameWriter(h) {
+					return false
+				}
+				// the data frame (not the headers sent on the way)
+				return true
+			}
+			// fields of the stream written by methods of the type outside the send family: lifecycle state
+			lifecycle := map[string]bool{}
+			for _, f := range p.LibFuncs("inprocgrpc") {
+				if core.RecvName(f) != tn || f.Name() == "SendMsg" {
+					continue
+				}
+				root := f
+				for root.Parent() != nil {
+					root = root.Parent()
+				}
+				if root.Name() == "SendMsg" {
+					continue
+				}
+				core.Instrs(f, func(in ssa.Instruction) {
+					if st, ok := in.(*ssa.Store); ok {
+						if base, fld, isF := core.FieldOf(st.Addr); isF && core.NamedOf(base.Type()) == tn {
+							lifecycle[fld] = true
+						}
+					}
+				})
+			}
+			n++
+			key := core.FuncName(fn) + ":turns-away-only-for-state"
+			bad := ""
+			var where token.Pos
+			for _, b := range fn.Blocks {
+				iff, isIf := b.Instrs[len(b.Instrs)-1].(*ssa.If)
+				if !isIf {
+					continue
+				}
+				for si := 0; si < 2; si++ {
+					f := core.CondFact(iff.Cond, si == 0)
+					var flds []string
+					for _, v := range []ssa.Value{f.X, f.Y} {
+						if v == nil {
+							continue
+						}
+						for _, o := range core.Origins(v) {
+							if base, fld, isF := core.FieldOf(o); isF && core.NamedOf(base.Type()) == tn {
+								flds = append(flds, fld)
+							}
+						}
+					}
+					if len(flds) == 0 {
+						continue
+					}
+					own := ""
+					for _, fld := range flds {
+						if !lifecycle[fld] {
+							own = fld
+						}
+					}
+					if own == "" {
+						continue
+					}
+					// does this edge lead to a return that reports an error without the frame write?
+					reach := core.Walk(core.Loc{B: b.Succs[si], Idx: 0}, isWrite, nil)
+					for _, r := range core.ErrReturns(fn) {
+						if reach[r] && core.EdgeDominates(b, si, r) && core.ClassifyErr(r.Results[len(r.Results)-1], r) != core.ErrNil {
+							bad, where = own, r.Pos()
+						}
+					}
+				}
+			}
+			if bad != "" {
+				c.Fail(key, where, "the handler's SendMsg turns a message away on a condition over its field %s, which no other method of the stream writes (a send counter, a per-method flag): the message never reaches the client, whose single-response probe therefore sees a well-behaved handler", bad)
+			} else {
+				c.Ok(key, fn.Pos(), "every early error return of the handler's SendMsg is decided by context, message, callee error or lifecycle state %v", keysOf(lifecycle))
+			}
+		}
+		if n == 0 {
+			c.Missing("in-process server stream SendMsg")
+		}
+		c.EndRule()
+	}
+
 	// ---------------------------------------------------------------- R6, R7 (shared)
 	// the second-request probe lives in the streaming handler's receive path only: a method that takes a single
 	// request is reached with the stream framing only through that handler (C11/R3: each kind of handler accepts its
